@@ -55,7 +55,7 @@ func hostileHost(r *ref.R) string {
 	case 2:
 		return string(r.Bytes(r.Range(1, 20)))
 	case 3:
-		return ref.Pick(r, []string{"[::1]", "[::1]:80", "[", "]", "[]", "[]:", ":", "::", ":80", "a:", "a:8x", "[::1", "::1]", "a.com:99999999999999999999"})
+		return ref.Pick(r, []string{"[::1]", "[::1]:80", "[", "]", "[]", "[]:", ":", "::", ":80", "a:", "a:8x", "[::1", "::1]", "a.com:99999999999999999999", "example.net", "www.example.net", "EXAMPLE.net:80", "[:80", "[:"})
 	case 4:
 		return strings.Repeat("a.", r.Range(1, 3000)) + "com"
 	default:
@@ -138,6 +138,12 @@ func runC05(c *Ctx) {
 	}
 	s := NewSys(ics, r.Chance(1, 3), r.Chance(1, 4), extra...)
 	pool := gen.Hostile.Table(r, r.Range(4, 24))
+	// regexp rules with groups of their own (optional, nested, alternations), with and without the ignored-name flag:
+	// a group that takes no part in a match must not upset the capture bookkeeping
+	groupPats := []string{`/docs/{-lang:(en|de)?}index.html`, `/v/{-minor:\d+(\.\d+)?}/info`, `/w/{ver:\d+(\.\d+)?}/info`, `/g/{-x:(a(b)?)?c}`, `/h/{y:(a|b)*}z/{-t:(q)?}`}
+	if r.Chance(1, 3) {
+		pool = append(pool, groupPats...)
+	}
 	var ops []opRec
 	for i := r.Range(4, 40); i > 0; i-- {
 		live := s.LivePatterns()
@@ -182,8 +188,12 @@ func runC05(c *Ctx) {
 	}
 
 	// (1) requests with arbitrary bytes against the table reached by the history
+	groupPaths := []string{"/docs/index.html", "/docs/enindex.html", "/v/1/info", "/v/1.2/info", "/w/1/info", "/w/1.25/info", "/g/c", "/g/ac", "/g/abc", "/h/z/", "/h/abz/q", "/h/z/q"}
 	for k := 0; k < 40 && !c.Violated(); k++ {
 		q := mon.Req{Method: ref.Pick(r, hostileMethods), Path: hostilePath(r, livePats), Host: hostileHost(r)}
+		if k < len(groupPaths) {
+			q.Path = groupPaths[k]
+		}
 		switch r.Intn(4) {
 		case 0:
 			q.Header = map[string]string{"Accept": string(r.Bytes(r.Range(0, 30))), "Origin": string(r.Bytes(5))}
@@ -230,7 +240,7 @@ func runC05(c *Ctx) {
 	grp := env.NewGroup()
 	var hosts *mux.Hosts
 	guard(c, "NewHosts", info(nil), func() {
-		hosts = mux.NewHosts(r.Bool(), "a.com", "{sub}.example.com", "api.example.com", "b.example.com", "c.example.com", "d.example.com", "e.example.com")
+		hosts = mux.NewHosts(r.Bool(), "a.com", "{sub}.example.com", "api.example.com", "b.example.com", "c.example.com", "d.example.com", "e.example.com", `{-www:(www\.)?}example.net`)
 	})
 	if hosts != nil && r.Bool() {
 		hosts.Delete(ref.Pick(r, []string{"a.com", "b.example.com", "{sub}.example.com", "zzz"}))
